@@ -16,6 +16,7 @@ The handler:
 
 from __future__ import annotations
 
+import copy
 import logging
 from datetime import timedelta
 from functools import partial
@@ -191,6 +192,7 @@ class JumpToStageHandler(StabilizeHandler[JumpToStage]):
 
             # Reset target stage (in-memory; persisted atomically below)
             reset_stage_for_retry(target_stage)
+            target_context_before = copy.deepcopy(target_stage.context)
 
             # Collect every stage mutation of this jump; they are applied in
             # ONE transaction together with the StartStage push at the end.
@@ -301,8 +303,15 @@ class JumpToStageHandler(StabilizeHandler[JumpToStage]):
                 if is_backward_jump:
                     mutations.extend(self._synthetic_reset_mutations(message.execution_id, source_stage.id))
 
-            # Target stage mutation
-            target_context_updates = dict(target_stage.context)
+            # Target stage mutation: only what this jump sets. The mutation is
+            # applied to a freshly loaded row; writing back the whole context
+            # read above would undo whatever was committed on the target in
+            # between (a persistent signal buffered by SignalStage, say).
+            target_context_updates = {
+                k: v
+                for k, v in target_stage.context.items()
+                if k not in target_context_before or target_context_before[k] != v
+            }
 
             def mutate_target(s: StageExecution, updates: dict[str, Any] = target_context_updates) -> None:
                 reset_stage_for_retry(s)
